@@ -35,6 +35,7 @@ const (
 	vpFileWrite
 	vpFileFlush
 	vpFileClose
+	vpGCRecheck
 )
 
 // VerifHook is called before every instrumented step of package nitro.
@@ -111,4 +112,5 @@ var VerifPointNames = map[int]string{
 	vpFileWrite:    "FILE_WRITE",
 	vpFileFlush:    "FILE_FLUSH",
 	vpFileClose:    "FILE_CLOSE",
+	vpGCRecheck:    "GC_RECHECK",
 }
